@@ -198,6 +198,16 @@ class RefEval:
             fn = {"sin": mpmath.sin, "cos": mpmath.cos, "tan": mpmath.tan, "exp": mpmath.exp, "log": mpmath.log,
                   "sinh": mpmath.sinh, "cosh": mpmath.cosh, "tanh": mpmath.tanh, "atan": mpmath.atan,
                   "asin": mpmath.asin, "acos": mpmath.acos}.get(name)
+            fn2 = {"atan2": mpmath.atan2, "besselj": mpmath.besselj, "bessely": mpmath.bessely}.get(name)
+            if fn2 is not None and len(vs) == 2:
+                # functions of several arguments: every argument dimensionless (checked above)
+                try:
+                    fv2 = fn2(*[mpmath.re(v_) if isinstance(v_, mpmath.mpc) and v_.imag == 0 else v_ for v_ in vs])
+                except (ValueError, ZeroDivisionError, OverflowError, TypeError):
+                    raise Ambiguous("function value undefined")
+                if mpmath.isinf(fv2) or mpmath.isnan(fv2) or (fv2 != 0 and abs(fv2) < mpmath.mpf(10) ** -25):
+                    raise Ambiguous("function value infinite or zero at rounding level")
+                return fv2, units_ref.ZERO
             if fn is None or len(vs) != 1:
                 raise Ambiguous("function not in reference: " + name)
             try:
@@ -343,10 +353,11 @@ class Gen:
         """shapes aimed at the interaction of branches"""
         sp, r = self.sp, self.r
         Q = self.Quantity
-        k = r.randrange(18)
+        k = r.randrange(19)
         u = self.unit()
         w = self.unit()
         def q(e):
+            e = sp.sympify(e)
             obj = Q(e)
             try:
                 self.qreg[obj] = self.ref.ev(e)
@@ -412,6 +423,15 @@ class Gen:
             zero = r.choice([q(0 * u), q(3 * u) - q(3 * u)])
             return r.choice([zero * x_, q(3 * w) * x_ * zero, sp.exp(x_) * zero, q(1) ** x_, u ** x_, q(2 * u) + sp.sqrt(x_) * zero,
                              q(2 * u) * (1 + 0 * x_) if False else q(2 * u) + zero * x_ ** 2])
+        if k == 17:  # functions of several arguments: every argument must be dimensionless
+            good = [q(3), q(sp.Rational(1, 2)), q(2 * u) / q(1 * u), sp.Integer(2)]
+            bad = [q(3 * u), q(2 * w), 2 * u]
+            f = r.choice([sp.atan2, sp.besselj, sp.bessely])
+            a1, a2 = (r.choice(good), r.choice(good + bad)) if r.random() < 0.5 else (r.choice(good + bad), r.choice(good))
+            if f is not sp.atan2:
+                a1 = r.choice([sp.Integer(0), sp.Integer(1), q(1)]) if r.random() < 0.7 else a1
+            e_ = f(a1, a2)
+            return r.choice([e_, e_ * w, e_ + q(2)])
         # any-valued operands deciding an unevaluated Min/Max or surviving in a sum
         a = q(r.choice([-3, 5, 2]) * u)
         return r.choice([sp.Max(q(0 * u), a), sp.Min(q(0 * w), a), sp.Max(a, q(0)), a + sp.oo, sp.Min(a, sp.oo * w), a - a + q(0 * w)])
